@@ -12,6 +12,7 @@ import (
 	"encoding/hex"
 	"fmt"
 	"math/big"
+	"os"
 	"sort"
 	"strings"
 	"time"
@@ -151,6 +152,17 @@ func (s *Spec) Init() *explore.State {
 	must(w.App.BankKeeper.SendCoinsFromModuleToAccount(ctx, erc20types.ModuleName, s.u2.Acc(), tk))
 	s.recorder = w.Deploy(ctx, s.u2, evmasm.WrapRuntime(recorderRT))
 	s.reverter = w.Deploy(ctx, s.u2, evmasm.WrapRuntime(reverterRT))
+	// a memo call is made from an account derived from (port/channel, remote sender); on this tree the EVM keeper refuses
+	// a call from an address that has no account record, so every memo call from a fresh derived sender ends in an error
+	// acknowledgement. The derived senders of the alphabet therefore exist already (somebody sent them one base unit),
+	// which is what lets a memo call run at all
+	for i := range s.pairs {
+		for _, sender := range s.senders() {
+			for _, d := range s.derived(i, sender) {
+				scen.Fund(w, ctx, d.Bytes(), sdk.NewCoins(sdk.NewCoin(fxtypes.DefaultDenom, sdkmath.NewInt(1))))
+			}
+		}
+	}
 
 	s.book = map[string]bool{
 		authtypes.NewModuleAddress(transfertypes.ModuleName).String(): true,
@@ -471,14 +483,18 @@ func (s *Spec) inboundOp(in inbound) explore.Op {
 			return
 		}
 		if !scen.AckIsSuccess(ack) {
-			c.Outcome = "error-ack"
+			c.Outcome = "error-ack/memo=" + in.Memo + "/" + in.Denom + "/" + in.Recv
+			if os.Getenv("FXMC_DEBUG") != "" {
+				err := s.w.App.IBCMiddlewareKeeper.HandlerIbcCall(world.Branch(c.Ctx), pkt.DestinationPort, pkt.DestinationChannel, data)
+				fmt.Fprintf(os.Stderr, "DEBUG %s: the memo call alone: %v (block max gas %d)\n", in, err, c.Ctx.ConsensusParams().Block.GetMaxGas())
+			}
 			if d := nonIBCDiff(preDump, s.w.Dump(c.Ctx)); len(d) > 0 {
 				c.Violate("error-ack-credits-nothing", sig("error-ack-but-state-changed/"+in.Denom+"/"+in.Memo), fmt.Sprintf("%s answered with an error acknowledgement but changed\n%s", in, strings.Join(d, "\n")))
 			}
 			return
 		}
 		c.Accepted = true
-		c.Outcome = "credited"
+		c.Outcome = "credited/memo=" + in.Memo + "/" + in.Denom + "/" + in.Recv
 		what := in.String() + " (success ack)"
 		name := target.Name
 		wantBank, wantErc := map[string]int64{}, map[string]int64{}
